@@ -172,7 +172,9 @@ def toStringWithDenomination (signed : Bool) (a : Int) (d : Denom) : Bytes :=
 `parseLoop` / `rescale` above write the two overflow tests as comparisons on `Nat`. The three definitions below evaluate instead
 the std methods that the translator READS at the three arithmetic sites of `parse_signed_to_piconero` (`Gen.amtParseMul`,
 `Gen.amtParseAdd`, `Gen.amtRescaleMul`, with `StdOp.eval` on u64); `C15_checked_steps` proves that they coincide with the
-comparisons, so a `wrapping_mul` in the source makes a theorem fail. `Gen.amtMaxLen` is the literal of the length test. -/
+comparisons and `C15_loop_uses_gen_steps` / `C15_rescale_uses_gen_step` that one iteration of `parseLoop` / `rescale` IS the
+corresponding step, so a `wrapping_mul` that the translator reads at a site makes a theorem fail (a site it cannot read falls back
+to the reviewed method: see `C15_parser_constants`). `Gen.amtMaxLen` is the observed / literal value of the length test. -/
 /-- one digit: `10_u64.<mul>(value)` then `.<add>(digit)`; `none` = `TooBig` (or an unrecognised site) -/
 def genDigitStep (v dgt : Nat) : Option Int :=
   match Gen.amtParseMul, Gen.amtParseAdd with
@@ -185,7 +187,9 @@ def genRescaleStep (v : Nat) : Option Int :=
   | none => none
 
 /-- `Display for Amount` / `Display for SignedAmount` (amount.rs 414-419, 729-734): `fmt_value_in(f, Denomination::Monero)`
-then `" {}"` of `Denomination::Monero` — the denomination is hard-wired -/
+then `write!(f, " {}", Denomination::Monero)` — the denomination is hard-wired, and the formatter `f` is used as a sink only: no
+flag of the format spec (precision, width, fill, alignment, `+`, `#`, `0`) is consulted, so `{:.4}`, `{:>30}`, `{:030}`, `{:+}` print
+what `{}` prints (by inspection of the two bodies; tied to the code by the harness ops `c15_display`, `c15_display_flags`) -/
 def display (signed : Bool) (a : Int) : Bytes := toStringWithDenomination signed a .Monero
 
 end Monero.AmtText
